@@ -24,7 +24,7 @@ STUBS = ['LLE.solve_lle_liquid_mol: fresh split 0 <= l_i <= mol_i', 'SLE._solve_
          'separations/binary phase_fraction used on the reuse path: fresh phase fraction']
 ASSUMPTIONS = ['LLE: feeds from two concrete compositions per chemical count, the splits returned by the solver stub, T1, T2 and the second composition symbolic; SLE: flows symbolic > 0, T in (250, 450)', 'tolerances are the library defaults read from the LLE object']
 OUTSIDE = ['that the float iteration reaches a fixed point (equal activities are decided AT a fixed point of the inner loop)', 'agreement between solver methods', 'scaling with the feed', 'more than 3 chemicals']
-BOUNDS = {'quick': dict(lle_chemicals='2-3', calls=2), 'thorough': dict(lle_chemicals='2-3', calls=2)}
+BOUNDS = {'quick': dict(lle_chemicals='2-3', calls=2, sle_calls_on_one_object=2), 'thorough': dict(lle_chemicals='2-3', calls=2, sle_calls_on_one_object=2)}
 _fx = c03._fx
 
 
@@ -353,6 +353,65 @@ def g_sle_rules():
     return run
 
 
+def g_sle_second_call():
+    """the SAME SLE object called again after the stream was edited (other solvent / solute amounts, the same
+    chemicals present): the rules hold for the second call's own amounts and solubility"""
+    def run(E):
+        sle = C.mod('thermosteam.equilibrium.sle')
+        th = _fx['th']
+        N = _fx['N']
+        ms = tmo.MultiStream(None, thermo=th, phases='sl')
+        order = ms.imol._phases
+        solute = 4
+        nsolv = E.pick([1, 2], 'n-solvents')
+        cur = {'xs': None}
+
+        class SSLE(sle.SLE):
+            __slots__ = ()
+
+            def _solve_x(self, T):
+                E.stub_called('_solve_x')
+                return cur['xs']
+        Sx = SSLE(ms.imol, ms._thermal_condition, th)
+        T = E.real('T', lo=250, hi=450, nice=(290, 440))
+        ncalls = 2
+        for call in range(ncalls):
+            dist = E.pick(['s', 'l', 'both'], f'solute-phase-before-call{call}')
+            fl = {ph: [0.0] * N for ph in order}
+            for i in range(nsolv):
+                x = E.real(f'solvent{i}_call{call}', nice=(0.5 + 30 * call, 40 - 30 * call))
+                E.assume(x > 0)
+                fl['l'][i] = x
+            for ph in order:
+                if dist == 'both' or dist == ph:
+                    x = E.real(f'solute_{ph}_call{call}', nice=(0.5 + call, 40))
+                    E.assume(x > 0)
+                    fl[ph][solute] = x
+            for ph in order:
+                row = ms.imol.data.rows[order.index(ph)]
+                row.dct.clear()
+                S.inject(row, fl[ph])
+            xs = E.real(f'xsol_call{call}', lo=0, hi=1, nice=(0.05, 0.9))
+            cur['xs'] = xs
+            given = E.choice(2, f'solubility-given-call{call}')
+            kw = dict(T=T)
+            if given:
+                kw['solubility'] = xs
+            Sx('Glucose', **kw)
+            if call == 0:
+                continue
+            rows = {ph: [ms.imol.data.rows[order.index(ph)].dct.get(i, 0.0) for i in range(N)] for ph in order}
+            tot_sol = fl['l'][solute] + fl['s'][solute]
+            liq_other = sum(rows['l'][i] for i in range(N) if i != solute)
+            sig = f'solvents={nsolv}/{dist}/given={given}'
+            E.prove('second-call-solvents-untouched', E.all([E.eq(rows['l'][i], fl['l'][i]) for i in range(N) if i != solute]
+                                                            + [E.eq(rows['s'][i], 0.0) for i in range(N) if i != solute]), sig=sig)
+            E.prove('second-call-solute-conserved-between-liquid-and-solid', E.eq(rows['l'][solute] + rows['s'][solute], tot_sol), sig=sig)
+            E.prove('second-call-dissolved-amount-not-more-than-present', E.all([E.le(rows['l'][solute], tot_sol), E.ge(rows['l'][solute], 0.0), E.ge(rows['s'][solute], 0.0)]), sig=sig)
+            E.prove('second-call-dissolved-fraction-not-above-solubility', E.le(rows['l'][solute], xs * (rows['l'][solute] + liq_other)), sig=sig)
+    return run
+
+
 BUDGET_S = {'quick': 400, 'thorough': 2400}
 
 
@@ -363,4 +422,5 @@ def groups(tier):
         'lle-inner-loop-fixed-point': (g_inner_loop_fixed_point(), dict(qtimeout_ms=60000, stubs_required=('gamma',))),
         'lle-top-chemical': (g_top_chemical(), dict(qtimeout_ms=30000, max_paths=400000)),
         'sle-rules': (g_sle_rules(), dict(qtimeout_ms=20000, max_paths=400000)),
+        'sle-second-call': (g_sle_second_call(), dict(qtimeout_ms=20000, max_paths=400000)),
     }
